@@ -543,6 +543,15 @@ def sourceDispatch (t : RelType) : Option ExitAct :=
   | some n => exit_actions.lookup n
   | none => none
 
+open CffiVerif.Generated.OwnershipSteps in
+/-- the objects `cdatagcp_traverse` reports for a wrapper with destructor `d` and origobj `o`: what the
+cycle collector knows of the wrapper's references (a reference it is not told about keeps a cycle
+through it alive for ever) -/
+def traversed (d o : ObjId) : List ObjId :=
+  gcp_traverse.map fun m => match m with
+    | .destructor => d
+    | .origobj => o
+
 /-- `x` is reachable from the program's references. -/
 inductive Reach (s : State) : ObjId → Prop
   | root (x : ObjId) (o : Obj) : s.live x = some o → 0 < o.ext → Reach s x
